@@ -230,6 +230,17 @@ def r3_entrypoints(ctx):
                  and n.func.attr == 'safe_process' and isinstance(n.func.value, ast.Name) and n.func.value.id == 'self']
         run.check(len(calls) == 1, 'R3', m.where, m.qualname, 'self.safe_process(...)',
                   'DataStreamProcessor.%s does not drive the pipeline through the shared safe_process' % name)
+    from sa.pattern import has_stmt, has_expr
+    res_m, proc_m = dsp.methods['results'], dsp.methods['process']
+    run.check(has_expr('self.safe_process(return_results=True, on_error=on_error)', res_m.node) and
+              has_stmt('return (_r, _ds.dp, _ds.merge_stats())', res_m.node), 'R3', res_m.where, res_m.qualname,
+              'results(): safe_process(return_results=True, on_error=on_error); return results, dp, merged stats',
+              'results() does not collect the rows of every resource with the requested validation policy')
+    run.check(has_stmt('return (_ds.dp, _ds.merge_stats())', proc_m.node), 'R3', proc_m.where, proc_m.qualname,
+              'process(): return dp, merged stats', 'process() does not return the final package and the merged stats')
+    ms = ctx.repo.cls('dataflows.base.datastream:DataStream').methods['merge_stats']
+    run.check(has_stmt('for _s in self.stats:\n    _ret.update(_s)', ms.node), 'R3', ms.where, ms.qualname,
+              'merge_stats: update in step order', 'stats of the steps are not merged in pipeline order')
     # the driver loop consumes every stream on every path
     facts = Facts(sp, include_nested=False)
     loops = [n for n in own_nodes(sp.node) if isinstance(n, ast.For) and 'res_iter' in u(n.iter)]
